@@ -206,6 +206,7 @@ let hist lineno (f : string array) =
   (* verdicts of oracles evaluated in the harness (clauses that need no model state) *)
   | "GOOD" -> print_string "OK\n"
   | "BAD" -> Printf.printf "FAIL\t%d\tmodel=-\tspec=%s\n" lineno (String.map (fun c -> if c = ' ' || c = '\t' then '-' else c) (raw_of_hex f.(2)))
+  | "HANG" -> Printf.printf "FAIL\t%d\tmodel=-\tspec=hang:%s\n" lineno (String.map (fun c -> if c = ' ' || c = '\t' then '-' else c) (raw_of_hex f.(2)))
   | "FRAME" ->
     let allowed = List.map bytes_of_hex (split_on ',' f.(2)) in
     let refused = bool_of_field f.(3) in
